@@ -129,6 +129,17 @@ RULE = (
     "scale invariance in geometry and radii, all clauses on the extreme variants, nuclei 1e-6 apart and mid-points for Hirshfeld; "
     "histories: dictionary edited after the constructor / shared by two objects, results edited in place, alternating cutoff, routes in "
     "every order on one object, get_cov_radii result edited, Hirshfeld object and generate_proatom result reused. "
+    "Round 4 (corr and oracle run as independent crash-proof parts): every route (generate_weights select / pt_ind / one sector, "
+    "compute_atom_weight whole set / one point at a time / per segment, compute_weights select / pt_ind, __call__) on ONE point, on "
+    "2..4 identical points and on segments made of such points with empty segments beside them, the points at the Cartesian origin "
+    "(0.0 / -0.0 components), on a nucleus, on a nucleus sitting at the origin, at a mid-point, with a zero component; molecules "
+    "with an atom exactly at the origin, lattice coordinates with many exact zeros, signed zeros; atoms x points in {1..4}^2 (equal "
+    "and unequal) -- against the generated model (correspondence) and, in the oracle, against generate_weights and an independent "
+    "scalar Becke reference (plain Python floats, one point at a time); argument forms (positional / keyword / omitted / explicit "
+    "None / explicit default, select and pt_ind both given, documented rejections), all arguments as views into one larger caller "
+    "array used for several requests (bytes around the views unchanged), points is atcoords, rejected calls of every kind issued "
+    "twice followed by accepted ones on the same objects, radii given as int / np.int64 / np.float64 / 0-d / float32, "
+    "strided / negative-stride / read-only / Fortran / integer-dtype coordinates. "
     "non-trivial = >=4 atoms with >=2 chunks, or a clipped heteronuclear pair, or a nan-radius element, or a point on a nucleus"
 )
 TRUSTED_BASE = [
@@ -633,15 +644,22 @@ def _corr_hirshfeld(ctx: Ctx, hmod):
 def corr(ctx: Ctx):
     mod = importlib.import_module("grid.becke")
     hmod = importlib.import_module("grid.hirshfeld")
-    _corr_formulas(ctx, mod)
-    _corr_init(ctx, mod)
-    ctx.extra["max_abs_deviation_model_vs_implementation"] = _corr_molecules(ctx, mod, hmod)
-    _corr_hirshfeld(ctx, hmod)
-    _corr_hirshfeld_gen(ctx, hmod)
-    _corr_kinds(ctx, mod, hmod)
-    _corr_reuse(ctx, mod, hmod)
-    _corr_covradii(ctx)
-    _corr_extreme(ctx, mod)
+
+    def molecules():
+        ctx.extra["max_abs_deviation_model_vs_implementation"] = _corr_molecules(ctx, mod, hmod)
+
+    _run_parts(ctx, "corr", [
+        ("becke.formulas", lambda: _corr_formulas(ctx, mod)),
+        ("becke.__init__", lambda: _corr_init(ctx, mod)),
+        ("becke.molecules", molecules),
+        ("becke.degenerate", lambda: _corr_degenerate(ctx, mod)),
+        ("hirshfeld", lambda: _corr_hirshfeld(ctx, hmod)),
+        ("hirshfeld.generated", lambda: _corr_hirshfeld_gen(ctx, hmod)),
+        ("becke.kinds", lambda: _corr_kinds(ctx, mod, hmod)),
+        ("becke.reuse", lambda: _corr_reuse(ctx, mod, hmod)),
+        ("utils.get_cov_radii", lambda: _corr_covradii(ctx)),
+        ("becke.extreme", lambda: _corr_extreme(ctx, mod)),
+    ])
 
 
 # ----------------------------------------------------------------------------------------------
@@ -818,9 +836,7 @@ def oracle_at(ctx: Ctx, failure):
         _oracle_molecule(ctx, mod, mol, [int(v) for v in tab], motions=False, kinds=True)
 
 
-def oracle(ctx: Ctx, budget: str):
-    mod = importlib.import_module("grid.becke")
-    hmod = importlib.import_module("grid.hirshfeld")
+def _oracle_molecules(ctx: Ctx, mod, budget):
     rng = ctx.rng
     big = budget == "large" or ctx.thorough
     nmol = 1500 if budget == "large" else ctx.n(150, 1500)
@@ -844,9 +860,10 @@ def oracle(ctx: Ctx, budget: str):
             mol["order"] = rng.choice([6, 7, 8])         # legitimate, large: the weights approach step functions
         tab = _table(rng, len(mol["pts"]), len(mol["at"]))
         _oracle_molecule(ctx, mod, mol, tab, motions=(i % 2 == 0 and not big_order), kinds=(i % 7 == 3))
-    _oracle_alpha_window(ctx, mod)
-    _oracle_extreme(ctx, mod, hmod, budget)
-    _oracle_histories(ctx, mod, hmod, budget)
+
+def _oracle_high_orders(ctx: Ctx, mod, budget):
+    rng = ctx.rng
+    big = budget == "large" or ctx.thorough
     # orders >= 9: in double precision 1 - f^[order](nu) underflows to exactly 0 for nu >~ 0.4, so at points where every atom
     # loses against some partner (heteronuclear molecules, >= 3 atoms) all cell products are 0 and the weights are 0/0 = nan.
     # Over the reals the clause holds for every order (cell_sum_pos); rounding is outside the model -> recorded with a witness.
@@ -870,11 +887,19 @@ def oracle(ctx: Ctx, budget: str):
     ctx.extra["nan_weight_points_at_orders_ge_9"] = nan_pts
     if nan_wit is not None:
         ctx.info(f"order >= 9: weights are nan (0/0, every cell product underflows to 0) at {nan_pts} sampled points; smallest witness of this run: {nan_wit}")
+
+def _oracle_many_atoms(ctx: Ctx, mod, budget):
+    rng = ctx.rng
+    big = budget == "large" or ctx.thorough
     if big:
         # more than 100 atoms: every chunk of __call__ has one point
         mol = _molecule(ctx, m=rng.choice([101, 128]), n=6)
         mol["over"] = {}
         _oracle_molecule(ctx, mod, mol, _table(rng, 6, len(mol["at"])), motions=False)
+
+def _oracle_select_probe(ctx: Ctx, mod, budget):
+    rng = ctx.rng
+    big = budget == "large" or ctx.thorough
     # known difference between the routes for an explicit, permuted `select` (outside the quantifier of C06: info only)
     mol = _molecule(ctx, m=3, n=6)
     b = _becke(mod, mol)
@@ -885,8 +910,12 @@ def oracle(ctx: Ctx, budget: str):
             ctx.info("compute_weights ignores the order of an explicit select=[2,0,1] (uses atom i on segment i); generate_weights uses atom select[i] on segment i")
     except Exception as e:
         ctx.info(f"explicit select probe raised {type(e).__name__}")
-    # Hirshfeld: shares sum to one; the call returns the share of the owner
+
+def _oracle_hirshfeld(ctx: Ctx, mod, hmod, budget):
+    rng = ctx.rng
+    big = budget == "large" or ctx.thorough
     H = hmod.HirshfeldWeights
+    # Hirshfeld: shares sum to one; the call returns the share of the owner
     shared = H()                       # one object for the whole loop: a remembered pro-atom must not change later values
     have = sorted(int(p.name[1:4]) for p in importlib.import_module("importlib.resources").files("grid.data.proatoms").iterdir() if p.name.endswith(".npz"))
     for z in [2, 3, 9, 10, 16, 17, 26, 79, 86] + [rng.randrange(1, 119) for _ in range(6)]:
@@ -924,6 +953,23 @@ def oracle(ctx: Ctx, budget: str):
         rho = np.array([H.generate_proatom(pts, at[k], nums[k]) for k in range(m)])
         if not np.all(np.abs(per * rho.sum(axis=0) - rho) <= 1e-12 * np.abs(rho).sum(axis=0)):
             ctx.fail("oracle", "hirshfeld.__call__:share", "Hirshfeld weight times pro-molecule density differs from the pro-atom density", witness=wit, snippet=_hsnippet(at, nums, pts, tab))
+
+def oracle(ctx: Ctx, budget: str):
+    """independent parts (implementation only: no driver, no translator); one part failing or raising never hides the others"""
+    mod = importlib.import_module("grid.becke")
+    hmod = importlib.import_module("grid.hirshfeld")
+    _run_parts(ctx, "oracle", [
+        ("becke.degenerate", lambda: _oracle_degenerate(ctx, mod, budget)),
+        ("becke.molecules", lambda: _oracle_molecules(ctx, mod, budget)),
+        ("becke.alpha-window", lambda: _oracle_alpha_window(ctx, mod)),
+        ("becke.extreme", lambda: _oracle_extreme(ctx, mod, hmod, budget)),
+        ("becke.histories", lambda: _oracle_histories(ctx, mod, hmod, budget)),
+        ("becke.arguments", lambda: _oracle_arguments(ctx, mod, hmod, budget)),
+        ("becke.high-orders", lambda: _oracle_high_orders(ctx, mod, budget)),
+        ("becke.many-atoms", lambda: _oracle_many_atoms(ctx, mod, budget)),
+        ("becke.select-probe", lambda: _oracle_select_probe(ctx, mod, budget)),
+        ("hirshfeld", lambda: _oracle_hirshfeld(ctx, mod, hmod, budget)),
+    ])
 
 
 # ----------------------------------------------------------------------------------------------
@@ -1736,5 +1782,476 @@ def _oracle_histories(ctx: Ctx, mod, hmod, budget):
             ctx.fail("oracle", f"becke.history:{sc}", f"scenario `{sc}` raised {type(e).__name__}: {e}", witness=dict(scenario=sc, atnums=mol["nums"], atcoords=mol["at"], radii=over), snippet=src)
         finally:
             for n, arr in keep.items():          # a scenario that managed to edit a module table must not poison the rest of the run
+                if not np.array_equal(getattr(U, n), arr, equal_nan=True):
+                    getattr(U, n)[...] = arr
+
+
+# ----------------------------------------------------------------------------------------------
+# round 4: crash-proof parts; degenerate point sets (one point, identical points, special positions, atoms at the origin,
+# signed zeros) through every route against generate_weights and an independent scalar Becke reference; argument
+# combinations, shared argument objects / views, no trace after an exception, radii of other kinds, unequal small shapes
+# ----------------------------------------------------------------------------------------------
+def _run_parts(ctx: Ctx, kind, parts):
+    """run the parts independently.  An exception raised by the *library* (a frame of the grid package below the last harness
+    frame) on an input inside the envelope is a failure of that part with its own key; any other exception (harness, driver,
+    translator) is kept and the first one is re-raised after all parts have run, so that it never hides what the others find."""
+    import traceback
+
+    first = None
+    for name, fn in parts:
+        try:
+            fn()
+        except Exception as e:  # noqa: BLE001
+            frames = traceback.extract_tb(e.__traceback__)
+            last_h = max([i for i, f in enumerate(frames) if "/harness/" in f.filename.replace("\\", "/")], default=-1)
+            lib = [f for f in frames[last_h + 1:] if "/grid/" in f.filename.replace("\\", "/") and "/harness/" not in f.filename]
+            if lib and type(e).__name__ != "DriverError":
+                f = lib[-1]
+                ctx.fail(kind, f"{name}:raises", f"part `{name}` of the {kind}: the library raised {type(e).__name__}: {str(e)[:200]} at {f.filename.split('/grid/')[-1]}:{f.lineno} "
+                         f"(`{(f.line or '').strip()[:120]}`) on an input the part expects to be accepted", witness=dict(part=name, exception=type(e).__name__, message=str(e)[:400]))
+            elif first is None:
+                first = e
+    if first is not None:
+        raise first
+
+
+def _eff_radius(d, z):
+    """the radius the documentation describes for element z (nan -> the element before, then the one before that)"""
+    r = float(d[int(z)])
+    if r != r:
+        r = float(np.nan_to_num(d[int(z) - 1])) or float(np.nan_to_num(d[int(z) - 2]))
+    return r
+
+
+def _becke_scalar(at, radii, order, p, cutoff=0.45):
+    """Becke's scheme (J. Chem. Phys. 88, 2547) for ONE point in plain Python floats: chi = R_A / R_B, u = (chi - 1) / (chi + 1),
+    a = u / (u^2 - 1) clipped to +-cutoff, nu = mu + a (1 - mu^2), f iterated `order` times, s = (1 - f) / 2, cell products,
+    normalisation.  No NumPy arrays, no broadcasting: independent of the array code under test."""
+    m = len(at)
+    pos = [[float(x) for x in a] for a in at]
+    q = [float(x) for x in p]
+    dist = [math.sqrt(sum((a[c] - q[c]) ** 2 for c in range(3))) for a in pos]
+    cells = []
+    for A in range(m):
+        prod = 1.0
+        for B in range(m):
+            if B == A:
+                continue
+            dab = math.sqrt(sum((pos[A][c] - pos[B][c]) ** 2 for c in range(3)))
+            mu = (dist[A] - dist[B]) / dab
+            chi = radii[A] / radii[B] if radii[B] != 0 and math.isfinite(radii[A] / radii[B]) else None
+            if chi is None:
+                u = (radii[A] - radii[B]) / (radii[A] + radii[B])
+            else:
+                u = (chi - 1.0) / (chi + 1.0)
+            a = u / (u * u - 1.0) if abs(u) != 1.0 else math.copysign(math.inf, -u)
+            a = min(max(a, -cutoff), cutoff)
+            f = mu + a * (1.0 - mu * mu)
+            for _ in range(max(order, 0)):
+                f = 1.5 * f - 0.5 * f ** 3
+            prod *= 0.5 * (1.0 - f)
+        cells.append(prod)
+    tot = sum(cells)
+    return [c / tot for c in cells]
+
+
+def _becke_reference(b, mol):
+    """atoms x points matrix of the scalar reference"""
+    radii = [_eff_radius(b._radii, z) for z in mol["nums"]]
+    return np.array([_becke_scalar(mol["at"], radii, mol["order"], p) for p in mol["pts"]]).T.reshape(len(mol["at"]), len(mol["pts"]))
+
+
+def _special_case(ctx: Ctx, m=None, n_hint=None):
+    """a molecule with special coordinates (an atom exactly at the origin, components exactly 0.0 / -0.0) and a point set made
+    of blocks of identical points at special positions, block i being the segment of atom i (blocks of length 0 included)."""
+    rng = ctx.rng
+    for _attempt in range(50):
+        m_ = m or rng.choice([1, 2, 2, 3, 3, 4, 5, 7])
+        mol = _molecule(ctx, m=m_, n=1)
+        mol["over"] = {z: v for z, v in mol["over"].items() if v == v}
+        at = mol["at"].copy()
+        u = rng.random()
+        if u < 0.5:
+            at = at - at[rng.randrange(m_)]                                # one nucleus exactly at the Cartesian origin
+        elif u < 0.7:
+            at = np.array([[rng.randrange(-2, 3) * 1.5 for _ in range(3)] for _ in range(m_)])     # many exact zeros
+            if rng.random() < 0.6:
+                at[rng.randrange(m_)] = 0.0
+        if rng.random() < 0.5:
+            at[rng.randrange(m_), rng.randrange(3)] = rng.choice([0.0, -0.0])
+        if rng.random() < 0.3:
+            j = rng.randrange(m_)
+            at[j] = np.where(at[j] == 0, rng.choice([0.0, -0.0]), at[j])      # the sign of the zeros of one nucleus
+        if len(set(tuple(float(x) + 0.0 for x in a) for a in at)) == m_ and _dmin(at) >= 0.5:
+            break
+    else:
+        at = mol["at"]
+    mol["at"] = at
+    origin_atoms = [j for j in range(m_) if not np.any(at[j])]
+
+    def position():
+        kinds = ["origin", "origin", "neg-zero-origin", "nucleus", "nucleus", "generic", "zero-component"]
+        if origin_atoms:
+            kinds += ["nucleus-at-origin"] * 3
+        if m_ >= 2:
+            kinds += ["mid-point", "mid-point"]
+        k = rng.choice(kinds)
+        if k == "origin":
+            return k, np.zeros(3)
+        if k == "neg-zero-origin":
+            return k, np.array([rng.choice([0.0, -0.0]) for _ in range(3)]) * 1.0 - 0.0
+        if k == "nucleus":
+            return k, at[rng.randrange(m_)].copy()
+        if k == "nucleus-at-origin":
+            return k, at[rng.choice(origin_atoms)].copy()
+        if k == "mid-point":
+            i, j = rng.sample(range(m_), 2)
+            return k, 0.5 * (at[i] + at[j])
+        p = at[rng.randrange(m_)] + np.array([rng.gauss(0, 1.5) for _ in range(3)])
+        if k == "zero-component":
+            p[rng.randrange(3)] = rng.choice([0.0, -0.0])
+        return k, p
+
+    blocks, kinds = [], []
+    style = rng.choice(["one-point", "identical", "blocks", "blocks", "blocks"]) if n_hint is None else "blocks"
+    if style == "one-point":
+        k, p = position()
+        owner = rng.randrange(m_)
+        blocks = [(p, 1 if i == owner else 0) for i in range(m_)]
+        kinds = [k]
+    elif style == "identical":
+        k, p = position()
+        owner = rng.randrange(m_)
+        cnt = rng.choice([2, 3, 4])
+        blocks = [(p, cnt if i == owner else 0) for i in range(m_)]
+        kinds = [k]
+    else:
+        for i in range(m_):
+            k, p = position()
+            blocks.append((p, rng.choice([0, 1, 1, 2, 3])))
+            kinds.append(k)
+        if all(c == 0 for _, c in blocks):
+            blocks[rng.randrange(m_)] = (blocks[0][0], 1)
+    pts = np.array([p for p, c in blocks for _ in range(c)], dtype=float).reshape(-1, 3)
+    tab = [0]
+    for _, c in blocks:
+        tab.append(tab[-1] + c)
+    mol["pts"] = pts
+    return mol, tab, style + ":" + "+".join(sorted(set(kinds)))
+
+
+DEG_SNIP = """import warnings; warnings.filterwarnings('ignore')
+import math
+import numpy as np
+from grid.becke import BeckeWeights
+nan = float('nan')
+at = np.array({at!r}, dtype=float).reshape(-1, 3)
+nums = np.array({nums!r}, dtype=int)
+pts = np.array({pts!r}, dtype=float).reshape(-1, 3)
+tab = {tab!r}; over = {over!r}; order = {order}; tol = {tol!r}
+M, N = len(at), len(pts)
+b = BeckeWeights(radii=over or None, order=order)
+def eff(z):
+    r = float(b._radii[int(z)])
+    return r if r == r else (float(np.nan_to_num(b._radii[int(z) - 1])) or float(np.nan_to_num(b._radii[int(z) - 2])))
+rad = [eff(z) for z in nums]
+def scalar(p):
+    dist = [math.sqrt(sum((float(a[c]) - float(p[c])) ** 2 for c in range(3))) for a in at]
+    cells = []
+    for A in range(M):
+        prod = 1.0
+        for B in range(M):
+            if B == A: continue
+            dab = math.sqrt(sum((float(at[A][c]) - float(at[B][c])) ** 2 for c in range(3)))
+            mu = (dist[A] - dist[B]) / dab
+            u = (rad[A] - rad[B]) / (rad[A] + rad[B])
+            a = u / (u * u - 1.0) if abs(u) != 1.0 else math.copysign(math.inf, -u)
+            a = min(max(a, -0.45), 0.45)
+            f = mu + a * (1.0 - mu * mu)
+            for _ in range(max(order, 0)): f = 1.5 * f - 0.5 * f ** 3
+            prod *= 0.5 * (1.0 - f)
+        cells.append(prod)
+    return [c / sum(cells) for c in cells]
+R = np.array([scalar(p) for p in pts]).T.reshape(M, N)
+W = np.array([b.generate_weights(pts, at, nums, select=k) for k in range(M)]).reshape(M, N)
+own = np.repeat(np.arange(M), np.diff(tab))
+seg = R[own, np.arange(N)]
+checks = [('generate_weights(select=k)', W, R),
+          ('compute_atom_weight(k)', np.array([b.compute_atom_weight(pts, at, nums, k) for k in range(M)]).reshape(M, N), R),
+          ('compute_weights(select=k)', np.array([b.compute_weights(pts, at, nums, select=k) for k in range(M)]).reshape(M, N), R),
+          ('compute_atom_weight(one point at a time)', np.array([[b.compute_atom_weight(pts[j:j + 1], at, nums, k)[0] for j in range(N)] for k in range(M)]).reshape(M, N), R),
+          ('compute_atom_weight(segment k)', np.concatenate([b.compute_atom_weight(pts[tab[k]:tab[k + 1]], at, nums, k) for k in range(M)]), seg),
+          ('generate_weights(pt_ind)', b.generate_weights(pts, at, nums, pt_ind=list(tab)) if M > 1 or True else None, seg),
+          ('compute_weights(pt_ind)', b.compute_weights(pts, at, nums, pt_ind=list(tab)), seg),
+          ('__call__', b(pts, at, nums, np.array(tab)), seg)]
+for name, got, want in checks:
+    got = np.asarray(got, dtype=float)
+    assert got.shape == want.shape and np.all(np.abs(got - want) <= tol), (name, 'differs from the scalar Becke reference', got, want)
+"""
+
+
+def _deg_snippet(mol, tab, tol):
+    return DEG_SNIP.format(at=mol["at"].reshape(-1).tolist(), nums=[int(z) for z in mol["nums"]], pts=mol["pts"].reshape(-1).tolist(),
+                           tab=[int(v) for v in tab], over=mol["over"], order=mol["order"], tol=tol)
+
+
+def _all_routes(b, mol, tab):
+    """every public route -> list of (key, description, callable, which reference: 'matrix' (atoms x points) or 'segments')"""
+    at, nums, pts, m, n = mol["at"], mol["nums"], mol["pts"], len(mol["at"]), len(mol["pts"])
+    T = list(tab)
+    return [
+        ("becke.generate_weights:select", "generate_weights(select=k) for every k", lambda: np.array([b.generate_weights(pts, at, nums, select=k) for k in range(m)]).reshape(m, n), "matrix"),
+        ("becke.compute_atom_weight:per-atom", "compute_atom_weight(…, k) for every k", lambda: np.array([b.compute_atom_weight(pts, at, nums, k) for k in range(m)]).reshape(m, n), "matrix"),
+        ("becke.compute_weights:select", "compute_weights(select=k) for every k", lambda: np.array([b.compute_weights(pts, at, nums, select=k) for k in range(m)]).reshape(m, n), "matrix"),
+        ("becke.compute_atom_weight:single-points", "compute_atom_weight on one point at a time", lambda: np.array([[b.compute_atom_weight(pts[j:j + 1], at, nums, k)[0] for j in range(n)] for k in range(m)]).reshape(m, n), "matrix"),
+        ("becke.generate_weights:one-sector", "generate_weights(select=np.int64(k), pt_ind=[0, N])", lambda: np.array([b.generate_weights(pts, at, nums, select=np.int64(k), pt_ind=[0, n]) for k in range(m)]).reshape(m, n), "matrix"),
+        ("becke.compute_atom_weight:segments", "compute_atom_weight on the segment of every atom", lambda: np.concatenate([b.compute_atom_weight(pts[T[k]:T[k + 1]], at, nums, k) for k in range(m)]), "segments"),
+        ("becke.generate_weights:segments", f"generate_weights(pt_ind={T})", lambda: b.generate_weights(pts, at, nums, pt_ind=T), "segments"),
+        ("becke.compute_weights:segments", f"compute_weights(pt_ind={T})", lambda: b.compute_weights(pts, at, nums, pt_ind=T), "segments"),
+        ("becke.__call__:chunking", f"__call__(indices={T})", lambda: b(pts, at, nums, np.array(T)), "segments"),
+    ]
+
+
+def _ref_tol(mol):
+    """the scalar reference and the array code order their operations differently: 1e-12, amplified by 1.5^order (slope of the
+    iterated polynomial) and by distance / smallest inter-nuclear distance"""
+    at, pts = mol["at"], mol["pts"]
+    far = float(np.max(np.linalg.norm(pts[:, None] - at, axis=-1))) if len(pts) else 1.0
+    return 1e-12 * 1.5 ** max(mol["order"], 1) * max(1.0, far) / min(1.0, _dmin(at))
+
+
+def _oracle_degenerate(ctx: Ctx, mod, budget):
+    """classes 12 / 20: every route on ONE point, on several identical points, on segments consisting of such points with empty
+    segments beside them; points at the Cartesian origin (all components 0.0 / -0.0), on a nucleus, on a nucleus that sits at
+    the origin, at a mid-point; molecules with an atom at the origin and signed-zero coordinates; atoms x points with both
+    sizes in 1..4 (equal and unequal).  Every route against generate_weights AND against the scalar reference."""
+    rng = ctx.rng
+    ncase = 600 if budget == "large" else ctx.n(90, 900)
+    shapes = [(m, n) for m in (1, 2, 3, 4) for n in (1, 2, 3, 4)]
+    for it in range(ncase):
+        if it < len(shapes) * 2 and it % 2 == 1:
+            # small unequal / equal shapes with generic points (a transposed intermediate shows against the scalar reference)
+            m, n = shapes[it // 2]
+            mol = _molecule(ctx, m=m, n=n)
+            mol["over"] = {z: v for z, v in mol["over"].items() if v == v}
+            tab, label = _table(rng, n, m), f"shape:{m}x{n}"
+        else:
+            mol, tab, label = _special_case(ctx)
+        at, nums, pts, m, n = mol["at"], mol["nums"], mol["pts"], len(mol["at"]), len(mol["pts"])
+        if n == 0:
+            continue
+        ctx.count(["degenerate", label, it, m, n], nontrivial=True, tag="oracle:degenerate:" + label.split(":")[0])
+        for kd in label.split(":")[1].split("+") if ":" in label and not label.startswith("shape") else []:
+            ctx.tagc("oracle:degenerate:position:" + kd)
+        with warnings_off():
+            b = _becke(mod, mol)
+            R = _becke_reference(b, mol)
+            if not np.all(np.isfinite(R)):
+                continue                                           # (orders at which every cell underflows: recorded elsewhere)
+            own = np.repeat(np.arange(m), np.diff(tab))
+            refs = {"matrix": R, "segments": R[own, np.arange(n)]}
+            tol = _ref_tol(mol)
+            wit = dict(atnums=nums, atcoords=at, points=pts, indices=tab, order=mol["order"], radii=mol["over"], kind=label)
+            W = None
+            for key, desc, fn, which in _all_routes(b, mol, tab):
+                try:
+                    got = np.asarray(fn(), dtype=float)
+                except Exception as e:  # noqa: BLE001
+                    ctx.fail("oracle", key + ":raises", f"{desc} raised {type(e).__name__}: {e} on {m} atoms, {n} points ({label})", witness=wit, snippet=_deg_snippet(mol, tab, tol))
+                    continue
+                if key == "becke.generate_weights:select":
+                    W = got
+                want = refs[which]
+                ok = got.shape == want.shape and bool(np.all(np.abs(got - want) <= tol))
+                if ok and W is not None and which == "matrix":
+                    ok = bool(np.all(np.abs(got - W) <= 1e-13))    # and the routes among themselves, tighter
+                if not ok:
+                    dev = float(np.nanmax(np.abs(got - want))) if got.shape == want.shape and got.size else str(got.shape)
+                    ctx.fail("oracle", key + ":degenerate", f"{desc} differs from the scalar Becke reference by {dev} on {m} atoms at {at.tolist()} and {n} point(s) {pts.tolist()[:4]} "
+                             f"({label}, indices {tab}, order {mol['order']}): got {got.reshape(-1)[:6].tolist()}, reference {want.reshape(-1)[:6].tolist()}", witness=wit, snippet=_deg_snippet(mol, tab, tol))
+            # the clauses themselves on the reference-free side: partition of unity, own nucleus
+            if W is not None and W.shape == (m, n) and not np.all(np.abs(W.sum(axis=0) - 1) <= 1e-12):
+                ctx.fail("oracle", "becke.generate_weights:partition", f"Becke weights sum to {W.sum(axis=0).tolist()} on {label}", witness=wit, snippet=_deg_snippet(mol, tab, tol))
+
+
+def _corr_degenerate(ctx: Ctx, mod):
+    """the same degenerate cases through the generated routines (model vs implementation)"""
+    rng = ctx.rng
+    jobs = []
+    for it in range(ctx.n(40, 500)):
+        mol, tab, label = _special_case(ctx)
+        at, nums, pts, m, n = mol["at"], mol["nums"], mol["pts"], len(mol["at"]), len(mol["pts"])
+        try:
+            b = _becke(mod, mol)
+        except Exception:
+            continue
+        mt, pt, tol = _mol_tokens(mol), _pts_tokens(pts), _tol(mol)
+        case = {"atnums": nums, "atcoords": at, "order": mol["order"], "radii": mol["over"], "npoints": n, "points": pts, "indices": tab, "kind": label}
+        k = rng.randrange(m)
+        with warnings_off():
+            for route, fn in (("gw", lambda j: b.generate_weights(pts, at, nums, select=j)), ("caw", lambda j: b.compute_atom_weight(pts, at, nums, j))):
+                r = _run(lambda: np.array([fn(j) for j in range(m)]).T.reshape(n, m))
+                jobs.append((f"C06.weights {route} {mt} {pt}", r, f"weights:{route}", tol, case, "mat"))
+            jobs.append((f"C06.compute {mt} {pt} - {vec(tab)}", _run(lambda: b.compute_weights(pts, at, nums, pt_ind=tab)), "compute_weights", tol, case, "vec"))
+            jobs.append((f"C06.generate {mt} {pt} - {vec(tab)}", _run(lambda: b.generate_weights(pts, at, nums, pt_ind=tab)), "generate_weights", tol, case, "vec"))
+            jobs.append((f"C06.call {mt} {pt} {vec(tab)}", _run(lambda: b(pts, at, nums, np.array(tab))), "__call__", tol, case, "vec"))
+            jobs.append((f"C06.atom {mt} {pt} {k}", _run(lambda: b.compute_atom_weight(pts, at, nums, k)), "compute_atom_weight", tol, case, "vec"))
+            jobs.append((f"C06.compute {mt} {pt} 1 {k} -", _run(lambda: b.compute_weights(pts, at, nums, select=[k])), "compute_weights:select", tol, case, "vec"))
+            # every segment on its own through the per-atom routine
+            for j in range(m):
+                seg = pts[tab[j]:tab[j + 1]]
+                jobs.append((f"C06.atom {mt} {_pts_tokens(seg)} {j}", _run(lambda: b.compute_atom_weight(seg, at, nums, j)), "compute_atom_weight:segment", tol, dict(case, points=seg, npoints=len(seg)), "vec"))
+    for (line, impl, key, tol, case, shape), ans in zip(jobs, driver_batch([j[0] for j in jobs])):
+        ctx.count(dict(case, op=key), nontrivial=True, tag="degenerate:" + case["kind"].split(":")[0])
+        model = _parse_mat(ans) if shape == "mat" else _parse(ans)
+        if not _same(impl, model, tol):
+            dev = None
+            if impl[1] is not None and model[1] is not None and impl[1].shape == model[1].shape and impl[1].size:
+                dev = float(np.nanmax(np.abs(impl[1] - model[1])))
+            ctx.fail("corr", f"becke.{key}:degenerate", f"{key} on {case['kind']} ({len(case['atnums'])} atoms, {case['npoints']} points {np.asarray(case['points']).tolist()[:3]}, order {case['order']}): "
+                     f"implementation {impl[0]} {None if impl[1] is None else impl[1].reshape(-1)[:4]}, model {model[0]} {None if model[1] is None else model[1].reshape(-1)[:4]}, max deviation {dev}",
+                     witness=dict(case, impl=impl[1], model=model[1]))
+
+
+ARG = """import warnings; warnings.filterwarnings('ignore')
+import numpy as np
+from grid.becke import BeckeWeights
+from grid.hirshfeld import HirshfeldWeights
+from grid.utils import get_cov_radii
+nan = float('nan')
+at = np.array({at!r}, dtype=float).reshape(-1, 3); nums = np.array({nums!r}, dtype=int)
+pts = np.array({pts!r}, dtype=float).reshape(-1, 3); tab = np.array({tab!r}, dtype=int)
+radii = {over!r}; order = {order}; k = {k}; scenario = {scenario!r}; hn = np.array({hnums!r}, dtype=int)
+M, N = len(at), len(pts)
+def routes(b, pts=pts, at=at, nums=nums, tab=tab):
+    return [b(pts, at, nums, tab), b.generate_weights(pts, at, nums, pt_ind=list(tab)), b.compute_weights(pts, at, nums, pt_ind=list(tab)),
+            b.compute_atom_weight(pts, at, nums, k), b.generate_weights(pts, at, nums, select=k), b.compute_weights(pts, at, nums, select=k)]
+def same(x, y, tol=0.0):
+    return all(np.shape(a) == np.shape(b) and np.all((np.abs(np.asarray(a) - np.asarray(b)) <= tol) | (np.isnan(a) & np.isnan(b))) for a, b in zip(x, y))
+ref = routes(BeckeWeights(radii=dict(radii) or None, order=order))
+href = HirshfeldWeights()(pts, at, hn, tab)
+if scenario == 'argument-forms':
+    r0 = dict(radii) or None
+    objs = [BeckeWeights(r0, order), BeckeWeights(order=order, radii=r0), BeckeWeights(radii=r0, order=order)]
+    if order == 3: objs += [BeckeWeights(r0), BeckeWeights(radii=r0)]
+    if not radii: objs += [BeckeWeights(order=order), BeckeWeights(None, order), BeckeWeights(radii=None, order=order)]
+    for b in objs:
+        assert same(routes(b), ref), 'the constructor arguments given positionally / by keyword / omitted / as explicit defaults give different weights'
+    b = objs[0]
+    forms = [b(points=pts, atcoords=at, atnums=nums, indices=tab), b.__call__(pts, at, atnums=nums, indices=tab),
+             b.generate_weights(pts, at, nums, select=None, pt_ind=list(tab)), b.generate_weights(points=pts, atcoords=at, atnums=nums, pt_ind=list(tab)),
+             b.generate_weights(pts, at, nums, select=list(range(M)), pt_ind=list(tab)), b.generate_weights(pts, at, nums, select=np.arange(M), pt_ind=tuple(tab)),
+             b.compute_weights(pts, at, nums, select=None, pt_ind=list(tab)), b.compute_weights(points=pts, atcoords=at, atnums=nums, pt_ind=list(tab), select=list(range(M)))]
+    for f, r in zip(forms, (0, 0, 1, 1, 1, 1, 2, 2)):
+        assert np.array_equal(f, ref[r], equal_nan=True), 'an argument form of the segment-wise call differs from the plain one'
+    one = [b.compute_atom_weight(pts, at, nums, k, 0.45), b.compute_atom_weight(pts, at, nums, select=k), b.compute_atom_weight(points=pts, atcoords=at, atnums=nums, select=k, cutoff=0.45),
+           b.generate_weights(pts, at, nums, select=k, pt_ind=None), b.generate_weights(pts, at, nums, select=k, pt_ind=[0, N]), b.generate_weights(pts, at, nums, select=[k], pt_ind=[0, N]),
+           b.compute_weights(pts, at, nums, select=k, pt_ind=None), b.compute_weights(pts, at, nums, select=[k]), b.compute_weights(pts, at, nums, select=np.int64(k), pt_ind=[0, N])]
+    for f in one:
+        assert np.array_equal(f, ref[3], equal_nan=True), 'an argument form of the one-atom call differs from the plain one'
+    # both alternatives at once: `select` says which atoms, `pt_ind` where; the number of sectors must match (documented ValueError)
+    for bad in (dict(select=k, pt_ind=list(tab)), dict(select=list(range(M)) + [0], pt_ind=list(tab)), dict(select=None, pt_ind=[0])):
+        if M == 1 and bad.get('select') == k and len(tab) == 2: continue
+        for meth in (b.generate_weights, b.compute_weights):
+            try:
+                meth(pts, at, nums, **bad); raise AssertionError(f'{{meth.__name__}}({{bad}}) was accepted')
+            except ValueError: pass
+    assert np.array_equal(HirshfeldWeights()(points=pts, atcoords=at, atnums=hn, indices=tab), href, equal_nan=True)
+    assert np.array_equal(get_cov_radii(atnums=nums, cov_type='bragg'), get_cov_radii(nums), equal_nan=True) and np.array_equal(get_cov_radii(nums, 'bragg'), get_cov_radii(nums), equal_nan=True)
+elif scenario == 'shared-arguments':
+    # every argument is a view into ONE larger caller array; the same objects are used for several requests and entry points
+    big = np.full(7 + 3 * N + 5 + 3 * M + 4, 12345.678)
+    P = big[7:7 + 3 * N].reshape(N, 3); P[...] = pts
+    A = big[7 + 3 * N + 5:7 + 3 * N + 5 + 3 * M].reshape(M, 3); A[...] = at
+    ibig = np.full(3 + M + 2 + (M + 1) + 3, -77, dtype=int)
+    Z = ibig[3:3 + M]; Z[...] = nums
+    T = ibig[3 + M + 2:3 + M + 2 + M + 1]; T[...] = tab
+    snap = (big.tobytes(), ibig.tobytes())
+    b = BeckeWeights(radii=dict(radii) or None, order=order)
+    for rep in range(3):
+        assert same(routes(b, P, A, Z, T), ref), 'views into a larger array give different weights than pristine copies'
+        assert (big.tobytes(), ibig.tobytes()) == snap, 'an argument (or the memory around the view) was modified'
+    # the same array object for two parameters: the weights at the nuclei
+    Wn = np.array([b.generate_weights(A, A, Z, select=j) for j in range(M)]); Cn = np.array([b.compute_atom_weight(A, A, Z, j) for j in range(M)])
+    assert np.all(np.abs(Wn - np.eye(M)) <= 1e-13) and np.all(np.abs(Cn - np.eye(M)) <= 1e-13), 'points is atcoords: weights at the nuclei are not the identity'
+    hz = ibig[3:3 + M].copy(); hz[...] = hn
+    for rep in range(2):
+        assert np.array_equal(HirshfeldWeights()(P, A, hz, T), href, equal_nan=True)
+    assert (big.tobytes(), ibig.tobytes()) == snap, 'an argument (or the memory around the view) was modified'
+elif scenario == 'after-exception':
+    b = BeckeWeights(radii=dict(radii) or None, order=order)
+    h = HirshfeldWeights()
+    bad_calls = [lambda: b.generate_weights(pts, at, nums, pt_ind=[0]), lambda: b.compute_weights(pts, at, nums, pt_ind=[0]),
+                 lambda: b.generate_weights(pts, at, nums, select=list(range(M)) + [0], pt_ind=list(tab)), lambda: b.generate_weights(pts, at, nums, select=M + 3),
+                 lambda: b.compute_atom_weight(pts, at, nums, M + 3), lambda: b.compute_weights(pts, at, nums, select=M + 3),
+                 lambda: b.generate_weights(pts, at, np.array([0] * M), select=0), lambda: b.compute_atom_weight(pts, at, np.array([200] * M), 0), lambda: b.generate_weights(pts, at, np.array([87] * M), select=0), lambda: b(pts, at, np.array([88] + [1] * (M - 1)), tab),
+                 lambda: b(pts[:0], at, nums, tab * 0), lambda: b(pts, at, np.array([-5] * M), tab), lambda: b.generate_weights(pts, at[:, :2], nums, select=0),
+                 lambda: BeckeWeights(radii=[1.0], order=order), lambda: BeckeWeights(radii={{1.0: 2.0}}), lambda: BeckeWeights(order=3.0),
+                 lambda: h(pts, at, hn.astype(float), tab), lambda: h(pts, at, np.array([1000] * M), tab), lambda: h(pts, at, hn, tab[:1]),
+                 lambda: get_cov_radii(0), lambda: get_cov_radii(nums, 'Bragg'), lambda: get_cov_radii([500])]
+    for i in {perm!r}:
+        for attempt in (1, 2):                    # a rejected call is rejected again (the first rejection left nothing behind)
+            try:
+                bad_calls[i % len(bad_calls)]()
+                raised = False
+            except Exception:
+                raised = True
+            assert raised, f'rejected call number {{i % len(bad_calls)}} was accepted (attempt {{attempt}})'
+        assert same(routes(b), ref), 'after a call that raised, the same object answers differently'
+        assert np.array_equal(h(pts, at, hn, tab), href, equal_nan=True), 'after a call that raised, the HirshfeldWeights object answers differently'
+    assert same(routes(BeckeWeights(radii=dict(radii) or None, order=order)), ref), 'after calls that raised, a new object answers differently'
+elif scenario == 'radii-kinds':
+    # the dictionary values held by the object: Python int, np.float64, np.int64, 0-d arrays -> the float64 answer;
+    # np.float32 values (same numbers) are computed in single precision by NumPy (recorded, <= 5e-6)
+    vals = {{z: v for z, v in zip(sorted(set(int(z) for z in nums)), {vals!r})}}
+    fref = routes(BeckeWeights(radii={{z: float(v) for z, v in vals.items()}}, order=order))
+    for conv in (lambda v: int(v) if float(v).is_integer() else float(v), np.float64, lambda v: np.array(float(v)), lambda v: np.int64(v) if float(v).is_integer() else np.float64(v)):       # (bool values are not radii: an all-bool dictionary makes NumPy build a boolean array, TypeError)
+        assert same(routes(BeckeWeights(radii={{z: conv(v) for z, v in vals.items()}}, order=order)), fref), 'radii given as another numeric kind (same values) give different weights'
+    assert same(routes(BeckeWeights(radii={{z: np.float32(v) for z, v in vals.items()}}, order=order)), fref, 5e-6), 'float32 radii (same values) deviate by more than single precision'
+    # array arguments that are what a grid object would hand over: read-only, negative strides, Fortran order, integer-valued coordinates
+    b = BeckeWeights(radii={{z: float(v) for z, v in vals.items()}}, order=order)
+    q = 0.25
+    pq, aq = np.round(pts / q) * q, np.round(at / q) * q
+    if len(set(map(tuple, aq))) == M:
+        r2 = routes(b, pq, aq)
+        ro = pq.copy(); ro.setflags(write=False)
+        for P, A in ((pq[::-1].copy()[::-1], aq[::-1].copy()[::-1]), (np.asfortranarray(pq), np.asfortranarray(aq)), (ro, aq), (np.hstack([pq, pq])[:, 3:], np.hstack([aq, aq])[:, :3])):
+            assert same(routes(b, P, A), r2), 'strided / read-only / Fortran-ordered coordinates give different weights'
+        pi, ai = np.round(pts).astype(np.int64), np.round(at * 2).astype(np.int64)
+        if len(set(map(tuple, ai))) == M:
+            assert same(routes(b, pi, ai), routes(b, pi.astype(float), ai.astype(float))), 'integer-dtype coordinates give different weights than the same values in float64'
+            assert same(routes(b, pi.astype(np.int32), ai.astype(np.int16)), routes(b, pi.astype(float), ai.astype(float))), 'int32 / int16 coordinates give different weights'
+"""
+
+
+def _oracle_arguments(ctx: Ctx, mod, hmod, budget):
+    """classes 14, 15, 16, 18: self-contained scripts (each is its own replay), reference = fresh objects on pristine copies"""
+    rng = ctx.rng
+    scenarios = ["argument-forms", "shared-arguments", "after-exception", "radii-kinds"]
+    U = importlib.import_module("grid.utils")
+    for it in range(32 if budget == "large" else ctx.n(12, 80)):
+        sc = scenarios[it % len(scenarios)]
+        mol = _molecule(ctx, m=rng.choice([1, 2, 3, 4, 5]) if it >= 8 else [1, 2, 3, 2][it % 4], n=rng.choice([1, 2, 3, 5, 8]))
+        if len(mol["pts"]) == 0:
+            continue
+        zs = sorted(set(int(z) for z in mol["nums"]))
+        over = {z: rng.uniform(0.4, 4.0) for z in rng.sample(zs, k=rng.randrange(1, len(zs) + 1))} if rng.random() < 0.5 else {}
+        tab = _table(rng, len(mol["pts"]), len(mol["at"]))
+        perm = [rng.randrange(0, 1000) for _ in range(8)]
+        vals = [rng.choice([1, 2, 3, 0.75, 1.5, 2.25, 0.5, 4]) for _ in zs]
+        src = ARG.format(at=mol["at"].reshape(-1).tolist(), nums=[int(z) for z in mol["nums"]], pts=mol["pts"].reshape(-1).tolist(), tab=[int(v) for v in tab],
+                         over=over, order=mol["order"], k=rng.randrange(len(mol["at"])), scenario=sc, perm=perm, vals=vals,
+                         hnums=[rng.choice([1, 6, 7, 8]) for _ in mol["nums"]])
+        ctx.count(["arguments", sc, it], nontrivial=True, tag="arguments:" + sc)
+        ctx.traces += 1
+        keep = {n: getattr(U, n).copy() for n in ("_bragg", "_cambridge", "_alvarez")}
+        try:
+            exec(compile(src, f"<C06 arguments {sc}>", "exec"), {"__name__": "__c06_arguments__"})
+        except AssertionError as e:
+            ctx.fail("oracle", f"becke.arguments:{sc}", f"scenario `{sc}`: {str(e)[:300]}", witness=dict(scenario=sc, atnums=mol["nums"], atcoords=mol["at"], points=mol["pts"], indices=tab, radii=over, order=mol["order"]), snippet=src)
+        except Exception as e:  # noqa: BLE001
+            ctx.fail("oracle", f"becke.arguments:{sc}", f"scenario `{sc}` raised {type(e).__name__}: {str(e)[:300]}", witness=dict(scenario=sc, atnums=mol["nums"], atcoords=mol["at"], radii=over, order=mol["order"]), snippet=src)
+        finally:
+            for n, arr in keep.items():
                 if not np.array_equal(getattr(U, n), arr, equal_nan=True):
                     getattr(U, n)[...] = arr
